@@ -46,7 +46,17 @@ LoadFails(bpp, order, buf, it) ==
 \* load(0), load(1), ... .  Result: [pos, codes, step, bad] (step = first failing step, 0 = none;
 \* bad = the distinct observations of all failing steps).
 IterStep(bpp, order, buf, N, acc, sc, ob, k) ==
-  IF sc[1] = 2
+  IF sc[1] >= 3
+  THEN \* consuming observations of the remaining items load(pos) .. load(N - 1) through provided Iterator methods
+       LET rem == Remaining(N, acc.pos)
+           c == CASE sc[1] = 3 -> IF IxVal4(ob[1], ob[2], ob[3], ob[4]) = rem THEN {} ELSE {"count"}
+                  [] sc[1] = 4 -> IF ob = (IF rem = 0 THEN None ELSE Load(bpp, order, buf, N - 1)) THEN {} ELSE {"last"}
+                  [] OTHER     -> IF Len(ob) = Min(rem, 4096) /\ \A j \in 1..Len(ob) : ob[j] = Load(bpp, order, buf, acc.pos + j - 1)
+                                  THEN {} ELSE {"fold_items"}
+       IN [pos |-> N, codes |-> acc.codes \cup c,
+           step |-> IF acc.step = 0 /\ c # {} THEN k ELSE acc.step,
+           bad |-> IF c # {} THEN acc.bad \cup {IF sc[1] = 5 THEN <<Len(ob)>> ELSE ob} ELSE acc.bad]
+  ELSE IF sc[1] = 2
   THEN LET rem == Remaining(N, acc.pos)
            c == (IF IxVal4(ob[1], ob[2], ob[3], ob[4]) <= rem THEN {} ELSE {"size_hint_lower"})
            \cup (IF ob[5] = 0 \/ IxVal4(ob[6], ob[7], ob[8], ob[9]) >= rem THEN {} ELSE {"size_hint_upper"})
